@@ -52,8 +52,20 @@ func runHistory(t *rapid.T, isValue bool) {
 		cfg.Equivalence = "nodup"
 	}
 	subs := drawSubs(t, cfg)
+	if rapid.IntRange(0, 7).Draw(t, "crowd") == 0 {
+		// a popular resource: dozens of subscribers, every one of them is owed every event
+		crowd := rapid.IntRange(14, 40).Draw(t, "crowdSize")
+		for i := 0; i < crowd; i++ {
+			subs = append(subs, rlib.SubSpec{Backpressure: true, UpdatesOnly: i%5 == 4})
+		}
+		lib.Ev.Class("history:observed by more than 16 subscribers")
+	}
 	r := rlib.NewRunner(cfg, subs...)
 	n := rapid.IntRange(1, 25).Draw(t, "writes")
+	if rapid.IntRange(0, 19).Draw(t, "long") == 0 {
+		n = rapid.IntRange(26, 120).Draw(t, "writesLong")
+		lib.Ev.Class("history:long (26-120 writes)")
+	}
 	readd, failBetween, suppressed := false, false, false
 	removed := map[string]bool{}
 	late := 0
